@@ -490,8 +490,8 @@ def rule_D19(body):
     `quoteN("TEMPLATE", &a, &b, ..)` where a, b, .. are the distinct `#ident` interpolations of TEMPLATE in order of first appearance (N of them; in the kept template text they are written #0, #1, .. so that renaming a local does not change the template) and the
     template text is kept as a string in a token-level normal form (white-space kept only between two word characters).  `quoteN` is an uninterpreted
     function in the template (result = Tok::Q(template, [tokens of a, tokens of b, ..])): WHAT proc_macro2 builds from the template is
-    dropped, THAT the result is determined by the template text and the interpolated values is kept.  Repetitions `#( .. )*` are not
-    supported (fail closed).  Every occurrence, at least one."""
+    dropped, THAT the result is determined by the template text and the interpolated values is kept.  A repetition `#(#x)*` of one interpolated
+    list without separator is an interpolation of the list x (its tokens item by item); every other repetition fails closed.  Every occurrence, at least one."""
     applied = []
     pos = 0
     while True:
@@ -502,8 +502,8 @@ def rule_D19(body):
         open_i = mm.end() - 1
         close_i = match_close(m, open_i)            # index just after the closing bracket
         inner = body[open_i + 1:close_i - 1]
-        if re.search(r"#\s*\(", inner) and not re.fullmatch(r"\s*#\(\s*#[A-Za-z_][A-Za-z0-9_]*\s*\)\*\s*", inner):
-            raise LostAnchor("rule D19: quote! template with a repetition other than the whole template `#(#x)*`")
+        if re.search(r"#\s*\(", re.sub(r"#\(\s*#[A-Za-z_][A-Za-z0-9_]*\s*\)\*", "", inner)):
+            raise LostAnchor("rule D19: quote! template with a repetition other than `#(#x)*` (one interpolated list, no separator)")
         args = []
         for a in re.findall(r"#([A-Za-z_][A-Za-z0-9_]*)", inner):
             if a not in args:
@@ -655,6 +655,126 @@ def rule_D23(body):
     return body[:mm.start()] + new + body[call_close + 1:], [("D23", re.sub(r"\s+", " ", body[mm.start():call_close + 1])[:160], f"{{ let mut {acc} = {init}; let mut {idx} = 0; for {var} in {recv}.iter() {{ {acc} = ..; {idx} = {idx} + 1; }} {acc} }}")]
 
 
+def _split_top_commas(masked, text):
+    """split `text` at the top-level commas of its masked form"""
+    parts, d, last = [], 0, 0
+    for i, ch in enumerate(masked):
+        if ch in "([{":
+            d += 1
+        elif ch in ")]}":
+            d -= 1
+        elif ch == "," and d == 0:
+            parts.append(text[last:i])
+            last = i + 1
+    parts.append(text[last:])
+    return parts
+
+
+def rule_D24(body):
+    """D24: `RECV.iter().enumerate().try_fold(INIT, |mut acc, (i, x)| { BODY })` in TAIL position of the function is written as
+    `({ let mut acc = INIT; let mut i: usize = 0; for x in RECV.iter() { match ({ BODY }) { Ok(next_) => { acc = next_; } Err(e_) => { return Err(e_); } } i = i + 1; } Ok(acc) })`
+    — Iterator::try_fold over Enumerate for a closure that returns a Result: the closure is applied to the accumulator and each (counter, item)
+    in order, the first `Err` ends the iteration and is the value of the expression (here: of the function, since the expression is its
+    tail), otherwise `Ok` of the last accumulator.  RECV a plain path; BODY a block without return/break/continue/? and without
+    assignment to the counter; exactly one occurrence; nothing but closing brackets may follow the call (fail closed).  Ghost anchors
+    /*INV:tfold*/ /*STEP:tfold*/; the counter is tied to the ghost iterator (`i == it_tfold.index@`)."""
+    m = mask(body)
+    hits = list(re.finditer(r"([A-Za-z_][A-Za-z0-9_]*(?:\s*\.\s*[A-Za-z_0-9]+)*)\s*\.iter\(\)\s*\.enumerate\(\)\s*\.try_fold\(", m))
+    if len(hits) != 1:
+        raise LostAnchor(f"rule D24: `.iter().enumerate().try_fold(` matched {len(hits)} times")
+    mm = hits[0]
+    call_open = mm.end() - 1
+    call_close = match_close(m, call_open) - 1
+    if re.sub(r"[\s})]", "", m[call_close + 1:]) != "":
+        raise LostAnchor("rule D24: the try_fold expression is not the tail of the function")
+    inner_m, inner = m[call_open + 1:call_close], body[call_open + 1:call_close]
+    parts = _split_top_commas(inner_m, inner)
+    parts_m = _split_top_commas(inner_m, inner_m)
+    if len(parts) >= 3 and parts[-1].strip() == "":
+        parts, parts_m = parts[:-1], parts_m[:-1]
+    if len(parts) < 2:
+        raise LostAnchor("rule D24: try_fold without initial value")
+    init = parts[0].strip()
+    rest, rest_m = ",".join(parts[1:]), ",".join(parts_m[1:])
+    cm = re.match(r"\s*\|\s*mut\s+([A-Za-z_][A-Za-z0-9_]*)\s*,\s*\(\s*([A-Za-z_][A-Za-z0-9_]*)\s*,\s*([A-Za-z_][A-Za-z0-9_]*)\s*\)\s*\|\s*(?=\{)", rest_m)
+    if not cm:
+        raise LostAnchor("rule D24: try_fold closure is not `|mut acc, (i, x)| { .. }`")
+    acc, idx, var = cm.groups()
+    cbody, cbody_m = rest[cm.end():].rstrip(), rest_m[cm.end():].rstrip()
+    if match_close(cbody_m, 0) != len(cbody_m):
+        raise LostAnchor("rule D24: closure block is followed by something")
+    if re.search(r"\breturn\b|\bbreak\b|\bcontinue\b|\?", cbody_m) or re.search(r"\b" + idx + r"\s*(\+|-|\*)?=[^=]", cbody_m):
+        raise LostAnchor("rule D24: try_fold closure contains return/break/continue/? or assigns the counter")
+    if re.search(r"\bnext_\b|\be_\b", m):
+        raise LostAnchor("rule D24: the names next_ / e_ are already in use")
+    recv = re.sub(r"\s+", "", mm.group(1))
+    new = (f"({{ let mut {acc} = {init}; let mut {idx}: usize = 0; let ghost seq_tfold = {recv}@; for {var} in it_tfold: {recv}.iter() invariant it_tfold.seq().len() == seq_tfold.len(), "
+           f"forall|i_: int| 0 <= i_ < it_tfold.seq().len() ==> *(#[trigger] it_tfold.seq()[i_]) == seq_tfold[i_], {idx} == it_tfold.index@, /*INV:tfold*/ "
+           f"{{ /*STEP:tfold*/ match (" + cbody + f") {{ Ok(next_) => {{ {acc} = next_; }} Err(e_) => {{ return Err(e_); }} }} /*NEXT:tfold*/ {idx} = {idx} + 1; }} Ok({acc}) }})")
+    return body[:mm.start()] + new + body[call_close + 1:], [("D24", re.sub(r"\s+", " ", body[mm.start():call_open + 1])[:140] + f"{init}, |mut {acc}, ({idx}, {var})| {{ .. }})",
+                                                                 f"{{ let mut {acc} = {init}; let mut {idx} = 0; for {var} in {recv}.iter() {{ match ({{ .. }}) {{ Ok(n) => {acc} = n, Err(e) => return Err(e) }} {idx} = {idx} + 1; }} Ok({acc}) }}")]
+
+
+def rule_D25(body):
+    """D25: a chain of Result combinators `R.and_then(|P1| X.map(|P2| E2)).map(|P3| B3)` is written as the matches that define them
+    (core::result: `and_then(f)` = `match self { Ok(t) => f(t), Err(e) => Err(e) }`, `map(f)` = `match self { Ok(t) => Ok(f(t)), Err(e) => Err(e) }`):
+    `match R { Ok(P1) => match (match X { Ok(P2) => Ok(E2), Err(e1_) => Err(e1_) }) { Ok(P3) => Ok(B3), Err(e2_) => Err(e2_) }, Err(e3_) => Err(e3_) }`.
+    R is the call expression in front of `.and_then` (from the start of its statement), X a plain identifier; the closure bodies stay
+    verbatim (no return/break/continue/?); exactly one occurrence."""
+    m = mask(body)
+    hits = list(re.finditer(r"\.and_then\(\s*\|", m))
+    if len(hits) != 1:
+        raise LostAnchor(f"rule D25: `.and_then(|` matched {len(hits)} times")
+    h = hits[0]
+    # receiver: back to the start of the statement / block
+    d, k = 0, h.start() - 1
+    while k >= 0:
+        ch = m[k]
+        if ch in ")]}":
+            d += 1
+        elif ch in "([{":
+            if d == 0:
+                break
+            d -= 1
+        elif ch == ";" and d == 0:
+            break
+        k -= 1
+    recv = body[k + 1:h.start()].strip()
+    recv_start = k + 1 + (len(body[k + 1:h.start()]) - len(body[k + 1:h.start()].lstrip()))
+    if not re.match(r"^[A-Za-z_]", recv) or re.search(r"\blet\b|=[^=]", mask(recv)):
+        raise LostAnchor("rule D25: receiver of and_then is not a plain call expression at the start of a statement")
+    a_open = m.index("(", h.start())
+    a_close = match_close(m, a_open) - 1
+    a_in, a_in_m = body[a_open + 1:a_close], m[a_open + 1:a_close]
+    c1 = re.match(r"\s*\|([^|]*)\|\s*", a_in_m)
+    p1 = a_in[c1.start(1):c1.end(1)].strip()
+    b1, b1_m = a_in[c1.end():].strip(), a_in_m[c1.end():].strip()
+    if b1_m.startswith("{") and match_close(b1_m, 0) == len(b1_m):
+        b1, b1_m = b1[1:-1].strip(), b1_m[1:-1].strip()
+    x = re.match(r"([A-Za-z_][A-Za-z0-9_]*)\s*\.map\(\s*\|([^|]*)\|\s*", b1_m)
+    if not x or match_close(b1_m, b1_m.index("(", x.end(1))) != len(b1_m):
+        raise LostAnchor("rule D25: the closure of and_then is not `X.map(|p| E)`")
+    xname, p2 = x.group(1), b1[x.start(2):x.end(2)].strip()
+    e2 = b1[x.end():-1].strip()
+    tail = re.match(r"\s*\.map\(\s*\|", m[a_close + 1:])
+    if not tail:
+        raise LostAnchor("rule D25: `.and_then(..)` is not directly followed by `.map(|`")
+    m_open = m.index("(", a_close + 1)
+    m_close = match_close(m, m_open) - 1
+    m_in, m_in_m = body[m_open + 1:m_close], m[m_open + 1:m_close]
+    c3 = re.match(r"\s*\|([^|]*)\|\s*", m_in_m)
+    p3 = m_in[c3.start(1):c3.end(1)].strip()
+    b3 = m_in[c3.end():].strip()
+    for blk in (mask(e2), mask(b3)):
+        if re.search(r"\breturn\b|\bbreak\b|\bcontinue\b|\?", blk):
+            raise LostAnchor("rule D25: a closure contains return/break/continue/?")
+    if re.search(r"\be[123]_\b", m):
+        raise LostAnchor("rule D25: the names e1_ / e2_ / e3_ are already in use")
+    new = (f"match {recv} {{ Ok({p1}) => match (match {xname} {{ Ok({p2}) => Ok({e2}), Err(e1_) => Err(e1_) }}) {{ Ok({p3}) => Ok({b3}), Err(e2_) => Err(e2_) }}, Err(e3_) => Err(e3_) }}")
+    return body[:recv_start] + new + body[m_close + 1:], [("D25", re.sub(r"\s+", " ", recv)[:80] + f".and_then(|{p1}| {xname}.map(|{p2}| ..)).map(|{p3}| {{ .. }})",
+                                                           f"match R {{ Ok({p1}) => match (match {xname} {{ Ok({p2}) => Ok(..), Err(e) => Err(e) }}) {{ Ok({p3}) => Ok({{ .. }}), Err(e) => Err(e) }}, Err(e) => Err(e) }}")]
+
+
 def rule_D5b(body):
     """D5 (closure body): `.map(|x| EXPR)` with EXPR not a block is written `.map(|x| { EXPR })`, so that a ghost
     signature can be attached to the closure; same value.  Every occurrence, at least one."""
@@ -722,7 +842,7 @@ def rule_D4t(body):
     return pat.sub("range_from_element(", body), [("D4", "<Option<&SubtypeElements> as TryInto<PerVisibleRangeConstraints>>::try_into(", "range_from_element(")] * n
 
 
-RULES = {"D2": rule_D2, "D5": rule_D5, "D5c": rule_D5c, "D5m": rule_D5m, "D9": rule_D9, "D4t": rule_D4t, "D10": rule_D10, "D5b": rule_D5b, "D12": rule_D12, "D13": rule_D13, "D14": rule_D14, "D15": rule_D15, "D15s": rule_D15s, "D12s": rule_D12s, "D12m": rule_D12m, "D17": rule_D17, "D18": rule_D18, "D19": rule_D19, "D20": rule_D20, "D21": rule_D21, "D22": rule_D22, "D23": rule_D23}
+RULES = {"D2": rule_D2, "D5": rule_D5, "D5c": rule_D5c, "D5m": rule_D5m, "D9": rule_D9, "D4t": rule_D4t, "D10": rule_D10, "D5b": rule_D5b, "D12": rule_D12, "D13": rule_D13, "D14": rule_D14, "D15": rule_D15, "D15s": rule_D15s, "D12s": rule_D12s, "D12m": rule_D12m, "D17": rule_D17, "D18": rule_D18, "D19": rule_D19, "D20": rule_D20, "D21": rule_D21, "D22": rule_D22, "D23": rule_D23, "D24": rule_D24, "D25": rule_D25}
 
 
 class FnUnit:
